@@ -8,6 +8,11 @@ extents, equal products, transposed matrices, lists one too short / too long, mo
 negative / = N / > N).  The implementation's raise / no-raise and the receiver's state before
 and after (bitwise) are compared with the decidable precondition `Pre_<op>` and with the
 model of the validation prefix `validate_<op>` evaluated by the Lean driver.
+
+A second family (`unsupported`) hands every public binary operation / method that takes a tensor
+operand an operand of a TYPE it does not take (str, None, list, dict, complex / float ndarray, the
+other pyttb classes) and demands an exception; its specification is the table `SUPPORTED` below
+(no Lean model).
 """
 from __future__ import annotations
 
@@ -34,11 +39,25 @@ RULE = ("one call per case; operands given by shape, values small integers deriv
         "repeated, non-permutation, element count changed, inconsistent constructor components, inadmissible "
         "option) over shapes with singleton, equal and multiple extents and empty sparse operands; "
         "non-trivial = an ill-formed request (the implementation must raise and leave the receiver bitwise "
-        "unchanged) or its accepted well-formed twin with more than one cell; distinct = distinct case hash")
+        "unchanged) or its accepted well-formed twin with more than one cell; distinct = distinct case hash. "
+        "Structural classes added after the mutation study: out-of-range subscripts whose value is zero or whose "
+        "duplicates cancel, zero / negative extents with and without entries, multiplicands of ttsv that are 2-d "
+        "arrays or nested lists, a sumtensor whose FIRST part differs, a ttensor given one component only, "
+        "non-float factor matrices / weights, initial guesses of a class the algorithm does not take (a ttensor "
+        "with fitting factors), contract of non-square matrices, larger masks whose nonzeros lie inside the data, "
+        "S[region] = sptensor with an index list of another length, subdims with a region of another length. "
+        "Family `unsupported`: every public binary operation / method taking a tensor operand is handed operands "
+        "of a TYPE it does not take (str, None, list, dict, complex / float ndarray, each other pyttb class; "
+        "receivers with and without nonzeros) and must raise - the specification is the table SUPPORTED written "
+        "from the signatures and class documentation, there is NO Lean theorem behind this family")
 ASSUMPTIONS = [
     "any Python exception is a rejection; a returned value (or None from an in-place operation) is an answer",
-    "operands are described by shape: matrices are 2-d arrays, vectors 1-d arrays, modes integers; requests "
-    "that are ill-typed rather than ill-sized (3-d 'matrices', float modes, strings) are outside the property",
+    "family malformed: operands are described by shape: matrices are 2-d arrays, vectors 1-d arrays, modes "
+    "integers; 3-d 'matrices' and float modes are outside the property",
+    "family unsupported: an operand kind counts as taken by an operation when the signature / documentation names "
+    "it or the operation converts it on purpose (tenfun: arrays of any dtype and every class with to_tensor/full, "
+    "hence also a tenmat; scale: anything with to_tenmat; dense __setitem__: NumPy's assignment conventions); "
+    "NumPy scalar types that pyttb refuses (np.int64 divisor) are over-rejection, not demanded either way",
     "only the preconditions named in the property are demanded; rejections beyond them are counted as "
     "over-rejection tags, never as violations",
 ]
@@ -923,6 +942,9 @@ class Constructors(Op):
                 out.append(dict(b, bad=None))
                 out.append(dict(b, subs=[[mr, 0], msubs[1]], bad="row index = extent"))
                 out.append(dict(b, subs=[msubs[0], [0, mc]], bad="column index = extent"))
+                # ... holding a zero value
+                out.append(dict(b, subs=[[mr, 0], msubs[1]], zero=[0], bad="row index = extent"))
+                out.append(dict(b, subs=[msubs[0], [0, mc]], zero=[1], bad="column index = extent"))
                 out.append(dict(b, subs=[[mr + 1, 0], msubs[1]], bad="row index > extent"))
                 out.append(dict(b, subs=[[-1, 0], msubs[1]], bad="index < 0"))
                 out.append(dict(b, nvals=1, bad="number of values"))
@@ -998,6 +1020,9 @@ class Constructors(Op):
             w = len(c["subs"][0])
             subs = np.array(c["subs"], dtype=int).reshape(len(c["subs"]), w)
             vals = np.array([r.choice([1, 2, 3]) for _ in range(c["nvals"])], dtype=float).reshape(-1, 1)
+            for i in c.get("zero", ()):
+                if i < len(vals):
+                    vals[i] = 0.0
             return (lambda: ttb.sptenmat(subs, vals, arr(c["rdims"]), arr(c["cdims"]), tuple(c["tshape"]), copy=c["copy"])), None
         if k == "from_vector":
             return (lambda: ttb.ktensor.from_vector(np.ones(c["n"]), tuple(c["shape"]), c["cw"])), None
@@ -2028,7 +2053,10 @@ class Malformed(Family):
                 "C19_rejects_karrange", "C19_rejects_kextract", "C19_receiver_unchanged_kmode",
                 "C19_receiver_unchanged_karrange", "C19_rejects_mask", "C19_rejects_khatrirao", "C19_rejects_cp_als",
                 "C19_rejects_cp_apr", "C19_rejects_tucker_als", "C19_rejects_hosvd", "C19_rejects_gcp_opt",
-                "C19_rejects_import_data")
+                "C19_rejects_import_data", "C19_rejects_from_aggregator_extents", "C19_rejects_sptensor_extents",
+                "C19_sptensor_empty_nonpositive_extent_counterexample", "C19_rejects_ttsv_multiplicand",
+                "C19_rejects_ttensor_components", "C19_rejects_ktensor_typed", "C19_rejects_subdims",
+                "C19_rejects_sp_assign", "C19_receiver_unchanged_sp_assign")
 
     def gen(self, rng, tier):
         out = []
@@ -2141,11 +2169,20 @@ SUPPORTED.update({
 })
 for _m in _CMP + _LOGICAL:
     SUPPORTED[("sptensor", _m)] = {"tensor", "sptensor"}
+SUPPORTED.update({
+    ("tensor", "tenfun_binary"): _DENSE_OK, ("tensor", "tenfun_unary"): _DENSE_OK,
+    # parts of a sum (alone / after a dense part) and the data handed to an algorithm
+    ("sumtensor", "__init__:only"): _HOLDERS4, ("sumtensor", "__init__:second"): _HOLDERS4,
+    ("cp_als", "data"): _HOLDERS4 | {"sumtensor"}, ("cp_apr", "data"): {"tensor", "sptensor"},
+    ("tucker_als", "data"): {"tensor", "sptensor"}, ("hosvd", "data"): {"tensor"}, ("gcp_opt", "data"): {"tensor", "sptensor"},
+})
 #: selectors / scalars of another type, for the operations that take a selector
 EXTRA_KINDS = {("ktensor", "extract"): ("float", "set")}
 
 
 def mk_receiver(r, cls, s, nnz=None):
+    if cls in ("cp_als", "cp_apr", "tucker_als", "hosvd", "gcp_opt"):
+        return None
     if cls == "tenmat":
         return mk_dense(r, s).to_tenmat(np.array([0]))
     if cls == "sptenmat":
@@ -2156,7 +2193,7 @@ def mk_receiver(r, cls, s, nnz=None):
 def mk_operand(r, kind, s, recv):
     if kind in ("tensor", "sptensor", "ktensor", "ttensor", "sumtensor", "tenmat", "sptenmat"):
         return mk_receiver(r, kind, s)
-    shape = tuple(recv.shape) if hasattr(recv, "shape") else tuple(s)
+    shape = tuple(recv.shape) if hasattr(recv, "shape") and not isinstance(recv, ttb.sumtensor) else tuple(s)
     return {"str": lambda: "a", "none": lambda: None, "list": lambda: [1.0, 2.0], "dict": lambda: {"a": 1},
             "carray": lambda: np.ones(shape) * (1 + 2j), "ndarray": lambda: np.ones(shape) * 2.0,
             "float": lambda: 1.5, "set": lambda: {0}}[kind]()
@@ -2164,6 +2201,23 @@ def mk_operand(r, kind, s, recv):
 
 def unsupported_thunk(recv, cls, method, o, s):
     N = len(s)
+    if method == "data":
+        from pyttb.gcp.handles import Objectives
+        from pyttb.gcp.optimizers import LBFGSB
+        return {"cp_als": lambda: ttb.cp_als(o, 1, maxiters=1, printitn=0),
+                "cp_apr": lambda: ttb.cp_apr(o, 1, maxiters=1, maxinneriters=1, printitn=0),
+                "tucker_als": lambda: ttb.tucker_als(o, 1, maxiters=1, printitn=0),
+                "hosvd": lambda: ttb.hosvd(o, 1e-4, verbosity=0),
+                "gcp_opt": lambda: ttb.gcp_opt(o, 1, Objectives.GAUSSIAN, LBFGSB(maxiter=1, iprint=-1), printitn=0)}[cls]
+    if method == "__init__:only":
+        return lambda: ttb.sumtensor([o])
+    if method == "__init__:second":
+        first = recv.parts[0]
+        return lambda: ttb.sumtensor([first, o])
+    if method == "tenfun_binary":
+        return lambda: recv.tenfun_binary(lambda a, b: a + b, o)
+    if method == "tenfun_unary":
+        return lambda: recv.tenfun_unary(lambda a: a.sum(axis=0), o)
     if method == "ttt":
         return lambda: recv.ttt(o)
     if method in ("ttv", "ttm", "mttkrp"):
